@@ -36,16 +36,31 @@ SPEC_EQUATIONS = {
 
 def check(model: Model, rep: Report, tier: str):
     rep.trust("spec: FOLLOWED_BY -> ref.end; JOINED_START -> ref.start; JOINED_END -> ref.end - duration; no reference -> 0")
-    r1(model, rep)
-    r2(model, rep)
-    r3(model, rep)
-    r4(model, rep)
-    r5(model, rep)
-    r6(model, rep)
-    r7(model, rep)
-    r8(model, rep)
-    r9(model, rep)
-    r10(model, rep)
+    with rep.isolated():
+        r1(model, rep)
+    with rep.isolated():
+        r2(model, rep)
+    with rep.isolated():
+        r3(model, rep)
+    with rep.isolated():
+        r4(model, rep)
+    with rep.isolated():
+        r5(model, rep)
+    with rep.isolated():
+        r6(model, rep)
+    with rep.isolated():
+        r7(model, rep)
+    with rep.isolated():
+        r8(model, rep)
+    with rep.isolated():
+        r9(model, rep)
+    with rep.isolated():
+        r10(model, rep)
+    from .c10 import t4
+    from .common import share_rule
+    with rep.isolated():
+        share_rule(rep, model, t4, "C01.R11", "the duration that enters an operation's equations under the global settings is the setting of its own kind (reset / microwave / "
+                   "flux / readout): class -> kind table and kind-books-its-channel agreement (= C10.T4)")
 
 
 # ---------------------------------------------------------------------------------------------
